@@ -7,6 +7,7 @@ import WgslVerif.Props.C15
 import WgslVerif.Props.C05
 import WgslVerif.Props.C06
 import WgslVerif.Props.C16
+import WgslVerif.Props.C07
 /-
 Driver checks for the properties whose specification is a decidable predicate `CxxOk m out`
 proved of the model in Props/Cxx: the same predicate is evaluated on the REAL output.
@@ -200,6 +201,59 @@ def c16 (c : Ctx) (r : Run) : Verdict :=
     { corr := corr, spec := spec,
       tags := [if c.path.isSome then "include" else "embedded"] ++ (if nonAscii then ["non-ascii"] else []) ++
         (if esc then ["needs-escapes"] else []) ++ (if c.src.toList.any (fun ch => ch.toNat > 0xFFFF) then ["non-bmp"] else []) }
+  | _, _ => { corr := corr, spec := .skip "no-output" }
+
+end CheckSimple
+end WgslVerif
+
+namespace WgslVerif
+namespace CheckSimple
+
+/-- executable form of `VertexStructOk` (Props/C07) for one generated `impl S` block -/
+def vertexStructOkB (m : Module) (v : RVertex) : Bool :=
+  match structMembersNamed m v.name with
+  | none => false
+  | some members =>
+    let located := members.filterMap fun (mem : Member) => match mem.binding with
+      | some (.location l) => some (l, mem)
+      | _ => none
+    v.attrs.map (fun a => (a.location, some a.field, a.ofStruct)) == located.map (fun (lm : Nat × Member) => (lm.1, lm.2.name, v.name)) &&
+    v.attrs.map (fun a => WgpuVertex.formatInfo a.format) == located.map (fun (lm : Nat × Member) => (m.types[lm.2.ty]?).bind numericOf) &&
+    v.attrs.all (fun a => (WgpuVertex.formatInfo a.format).isSome) &&
+    v.count == v.attrs.length && v.strideOf == v.name && v.attrsOf == v.name
+
+def c07 (c : Ctx) (r : Run) : Verdict :=
+  let (cmp, _) := CheckGen.compare c r
+  let corr := CheckGen.corrFor cmp ["vertex-attrs", "vertex-entries"]
+  match c.module, r.real with
+  | some m, .ok o =>
+    -- which structs are struct parameters of vertex entries
+    let wanted := ((m.entries.filter fun e => e.stage == .vertex).flatMap fun e =>
+      ((e.fn.args.filter fun a => a.2.isNone).filter (isStructArg m)).filterMap fun a => (m.types[a.1]?).bind (·.name)).eraseDups
+    let have_ := o.vertex.map (·.name)
+    let spec : Status :=
+      match o.vertex.find? fun v => !vertexStructOkB m v with
+      | some v => .fail s!"c07#attribute-table: impl {v.name}: attrs {shortRepr (v.attrs.map fun a => (a.format, a.field, a.location)) 300}"
+      | none =>
+        if !(wanted.all have_.contains) then .fail s!"c07#missing-impl: vertex input struct(s) {wanted.filter fun n => !have_.contains n} have no VERTEX_ATTRIBUTES"
+        else if !(have_.all wanted.contains) then .fail s!"c07#extra-impl: {have_.filter fun n => !wanted.contains n}"
+        else if have_.eraseDups.length != have_.length then .fail s!"c07#duplicate-impl: {have_}"
+        else
+          -- per entry helper: buffers in parameter order, own step-mode parameter each
+          let ves := (m.entries.filter fun e => e.stage == .vertex)
+          let bad := (ves.zip o.vertexEntries).find? fun (ev : EntryPoint × RVertexEntry) =>
+            let names := ((ev.1.fn.args.filter fun a => a.2.isNone).filter (isStructArg m)).map fun a => (m.types[a.1]?).bind (·.name)
+            !(ev.2.buffers.map (fun b => some b.1) == names && ev.2.n == ev.2.buffers.length &&
+              ev.2.params.map (·.1) == ev.2.buffers.map (·.2) ++ (if m.overrides.isEmpty then [] else ["overrides"]) &&
+              (ev.2.buffers.map (·.2)).eraseDups.length == ev.2.buffers.length)
+          match bad with
+          | some (e, v) => .fail s!"c07#entry-buffers: {e.name}: buffers {v.buffers} params {v.params}"
+          | none => if ves.length != o.vertexEntries.length then .fail "c07#entry-count: ?" else .ok
+    { corr := corr, spec := spec,
+      tags := if o.vertex.isEmpty && wanted.isEmpty then [] else
+        [s!"structs{min o.vertex.length 9}"] ++
+        (if o.vertex.any (fun v => v.attrs.map (·.location) != (v.attrs.map (·.location)).mergeSort) then ["unordered-locations"] else []) ++
+        (if o.vertexEntries.any (fun v => v.buffers.length > 1) then ["multi-buffer"] else []) }
   | _, _ => { corr := corr, spec := .skip "no-output" }
 
 end CheckSimple
